@@ -1,4 +1,4 @@
-\* C18 / Reloc.tla -- (E) HISTORICAL: mapping offset = start of the first mapping (the code before /repo b294a80); kept as a model mutant.
+\* C18 / Reloc.tla -- (E) PREDICTION: seeded slip: the link base is subtracted for the main executable only (shared objects "are linked at 0"), the other rules repaired.
 \* TLC is expected to report a violated invariant here; the binding decides on the real debugger.
 CONSTANTS
     ExeModes = {"pie", "nopie"}
@@ -8,7 +8,7 @@ CONSTANTS
     LibBases = {0, 60}
     Kinds = {"fn", "line", "addr"}
     MaxReq = 2
-    OffsetRule = "first_mapping_start"
+    OffsetRule = "main_only"
     ReloadRule = "rearm"
     EarlyAddrRule = "defer"
     AttachRule = "rbrk"
